@@ -26,17 +26,41 @@ func (World) Name() string { return "auth" }
 
 var kinds = []string{"rinfo", "leaseset", "ls2", "ls2", "mls", "els", "offsig"}
 
+// edge32 / edge16 draw header values with the special values first: a
+// verifier that takes a short cut for "zero", "maximum" or "unset" fields must
+// meet them.
+func edge32(r *engine.RNG) uint64 {
+	if r.Chance(1, 4) {
+		return r.PickU64(0, 1, 1<<31-1, 1<<31, 1<<32-1)
+	}
+	return r.Uint64() & 0xFFFFFFFF
+}
+
+func edge16(r *engine.RNG) uint64 {
+	if r.Chance(1, 4) {
+		return r.PickU64(0, 1, 660, 32767, 32768, 65535)
+	}
+	return r.Uint64() & 0xFFFF
+}
+
 func genShape(r *engine.RNG, kind string, c06 bool) *engine.Shape {
 	sh := &engine.Shape{Kind: kind, Seed: r.Uint64() | 1, IdentSeed: 1 + uint64(r.Intn(8)), Cert: "key"}
 	off := func(ts ...int) {
 		if r.Chance(2, 5) {
-			sh.Offline = &engine.OfflineShape{Transient: ts[r.Intn(len(ts))], Expires: 1 + r.Uint64()&0xFFFFFFFE, Seed: 100 + uint64(r.Intn(8))}
+			exp := edge32(r)
+			if c06 && exp == 0 {
+				exp = 1 // CreateOfflineSignature refuses a zero expiry
+			}
+			sh.Offline = &engine.OfflineShape{Transient: ts[r.Intn(len(ts))], Expires: exp, Seed: 100 + uint64(r.Intn(8))}
 		}
 	}
 	switch kind {
 	case "rinfo":
 		sh.Sig, sh.Crypto = r.PickInt(7, 7, 7, 7, 0, 1), r.PickInt(4, 4, 0)
 		sh.U = []uint64{1 + r.Uint64()>>22, 0}
+		if r.Chance(1, 8) {
+			sh.U[0] = r.PickU64(1, 999, 1000, 1<<31*1000, (1<<32-1)*1000)
+		}
 		na := r.PickInt(0, 1, 1, 2, 3)
 		if c06 && r.Chance(1, 12) {
 			na = r.PickInt(8, 255)
@@ -60,14 +84,18 @@ func genShape(r *engine.RNG, kind string, c06 bool) *engine.Shape {
 		}
 		sh.N = r.PickInt(0, 1, 2, 3, 16)
 		for i := 0; i < sh.N; i++ {
-			sh.U = append(sh.U, r.Uint64()>>uint(1+r.Intn(30)))
+			if r.Chance(1, 5) {
+				sh.U = append(sh.U, r.PickU64(0, 1, 1<<63-1, 1<<53))
+			} else {
+				sh.U = append(sh.U, r.Uint64()>>uint(1+r.Intn(30)))
+			}
 		}
 	case "ls2", "mls":
 		sh.Sig, sh.Crypto = r.PickInt(7, 7, 7, 11, 11, 0, 0, 1), r.PickInt(4, 0)
 		if sh.Sig == 0 && r.Chance(1, 2) {
 			sh.Cert, sh.Crypto = "null", 0 // classic ElGamal + DSA destination
 		}
-		sh.U = []uint64{r.Uint64() & 0xFFFFFFFF, r.Uint64() & 0xFFFF, uint64(r.Intn(4)) << 1}
+		sh.U = []uint64{edge32(r), edge16(r), uint64(r.Intn(4)) << 1}
 		off(7, 7, 11, 8, 0, 1)
 		if kind == "ls2" {
 			sh.N = r.PickInt(1, 1, 2, 3, 5, 16)
@@ -85,16 +113,16 @@ func genShape(r *engine.RNG, kind string, c06 bool) *engine.Shape {
 			sh.N = r.PickInt(1, 1, 2, 4, 16)
 		}
 		for i := 0; i < sh.N; i++ {
-			sh.U = append(sh.U, r.Uint64()&0xFFFFFFFF)
+			sh.U = append(sh.U, edge32(r))
 		}
 	case "els":
 		sh.Sig = r.PickInt(7, 7, 7, 11, 11, 0, 1)
 		sh.Size = r.PickInt(61, 61, 80, 200, 600)
-		sh.U = []uint64{r.Uint64() & 0xFFFFFFFF, 1 + r.Uint64()&0xFFFE, uint64(r.Intn(2)) << 1}
+		sh.U = []uint64{edge32(r), max(1, edge16(r)), uint64(r.Intn(2)) << 1}
 		off(7, 7, 11, 8, 0)
 	case "offsig":
 		sh.Sig, sh.Crypto = r.PickInt(7, 7, 11), 4
-		sh.Offline = &engine.OfflineShape{Transient: r.PickInt(7, 7, 11, 8, 0, 1, 2, 3, 4), Expires: 1 + r.Uint64()&0xFFFFFFFE, Seed: 100 + uint64(r.Intn(8))}
+		sh.Offline = &engine.OfflineShape{Transient: r.PickInt(7, 7, 11, 8, 0, 1, 2, 3, 4), Expires: max(1, edge32(r)), Seed: 100 + uint64(r.Intn(8))}
 	}
 	return sh
 }
